@@ -345,7 +345,28 @@ pub fn push_cut(d: DuctId, bytes: &[u8], cuts: &[usize]) {
 
 /// Delivers the next pending chunk of `d` right now (an actor acting as the
 /// network). Returns false if nothing is pending.
+/// A gate that no condition opens: what stands behind it is delivered by `force_deliver` only (or by the scheduler once
+/// `release_manual_gates` has removed it).
+pub const MANUAL_GATE: &str = "only-by-force_deliver";
+
+pub fn release_manual_gates(d: DuctId) {
+    with(|w| w.ducts[d].pending.retain(|c| !matches!(c, Chunk::Gate(g) if g == MANUAL_GATE)));
+}
+
+/// Delivers the next chunk of the duct now (an action of the scenario's actor, not a scheduler choice); a manual gate or
+/// a gate whose condition holds in front of it is opened first. Returns whether something was delivered.
 pub fn force_deliver(d: DuctId) -> bool {
+    with(|w| loop {
+        let open = match w.ducts[d].pending.front() {
+            Some(Chunk::Gate(c)) => c == MANUAL_GATE || w.conds.get(c).map(|x| x.0).unwrap_or(false),
+            _ => false,
+        };
+        if open {
+            w.ducts[d].pending.pop_front();
+        } else {
+            break;
+        }
+    });
     let has = with(|w| matches!(w.ducts[d].pending.front(), Some(Chunk::Data(_)) | Some(Chunk::Eof) | Some(Chunk::Err(_))));
     if has {
         with(|w| {
